@@ -225,7 +225,7 @@ def real_violations(rows):
     return out
 
 
-def validate_files(ctx, files, timeout=1500):
+def validate_files(ctx, files, timeout=1500, base=0):
     """Validate several NDJSON traces against TraceQuotaTree concurrently.
     -> list of dict(file, accepted, stuck_line, invariant)"""
     _locked_subdir(ctx)
@@ -233,7 +233,7 @@ def validate_files(ctx, files, timeout=1500):
     def one(i_f):
         i, f = i_f
         tv = tlc.validate_trace(ctx, "TraceQuotaTree", "TraceQuotaTree.cfg", f, timeout=timeout,
-                                name="trace_%d" % i)
+                                name="trace_%d" % (base + i))
         return {"file": f, "accepted": tv["accepted"], "stuck_line": tv["stuck_line"], "invariant": tv["invariant"],
                 "states": tv["res"].distinct}
     with ThreadPoolExecutor(max_workers=min(8, max(1, len(files)))) as ex:
